@@ -345,3 +345,89 @@ func (m *Model) restoreUnit(tk *TreeKind) *FuncUnit {
 	}
 	return found
 }
+
+
+// effectiveMethod: the function that carries the algorithm of a tree method. A method that only
+// prepares the key and then hands over to another method of the same tree (`return t.unlink(keyS,
+// colKey)`) is a wrapper: the rules about the descent look at the method it delegates to.
+func (m *Model) effectiveMethod(tk *TreeKind, name string) *FuncUnit {
+	u := tk.Methods[name]
+	for depth := 0; u != nil && depth < 2; depth++ {
+		if u.Body == nil || len(u.Body.List) == 0 {
+			return u
+		}
+		hasLoop := false
+		ast.Inspect(u.Body, func(n ast.Node) bool {
+			switch n.(type) {
+			case *ast.FuncLit:
+				return false
+			case *ast.ForStmt, *ast.RangeStmt:
+				hasLoop = true
+			}
+			return true
+		})
+		if hasLoop {
+			return u
+		}
+		var call *ast.CallExpr
+		switch last := u.Body.List[len(u.Body.List)-1].(type) {
+		case *ast.ReturnStmt:
+			if len(last.Results) == 1 {
+				call, _ = ast.Unparen(last.Results[0]).(*ast.CallExpr)
+			}
+		case *ast.ExprStmt:
+			call, _ = last.X.(*ast.CallExpr)
+		}
+		if call == nil {
+			return u
+		}
+		cu := m.calleeUnit(call)
+		if cu == nil || cu.Lit != nil || cu.Recv != u.Recv || cu == u || cu.Body == nil {
+			return u
+		}
+		u = cu
+	}
+	return u
+}
+
+// algorithmUnit: like effectiveMethod, and when the method has no loop of its own but calls exactly
+// one library function that has one (a descent shared by all tree kinds), that function.
+func (m *Model) algorithmUnit(tk *TreeKind, name string) *FuncUnit {
+	u := m.effectiveMethod(tk, name)
+	if u == nil || u.Body == nil {
+		return u
+	}
+	hasLoop := func(x *FuncUnit) bool {
+		found := false
+		ast.Inspect(x.Body, func(n ast.Node) bool {
+			switch n.(type) {
+			case *ast.FuncLit:
+				return false
+			case *ast.ForStmt:
+				found = true
+			}
+			return true
+		})
+		return found
+	}
+	if hasLoop(u) {
+		return u
+	}
+	var cand *FuncUnit
+	n := 0
+	ast.Inspect(u.Body, func(x ast.Node) bool {
+		if call, ok := x.(*ast.CallExpr); ok {
+			if cu := m.calleeUnit(call); cu != nil && cu.Lit == nil && cu.Body != nil && cu != u && hasLoop(cu) && !m.isRestoreUnit(cu) {
+				if cand != cu {
+					n++
+				}
+				cand = cu
+			}
+		}
+		return true
+	})
+	if n == 1 {
+		return cand
+	}
+	return u
+}
